@@ -1,7 +1,10 @@
 """C07 - physical states: the symmetry clause (N Hermitian, M symmetric) of the Gaussian simulator."""
 from . import common_gauss as G
+from . import c06
 
 
 def rules(ctx):
     G.mirror(ctx, "C07.mirror")
     ctx.floor("C07.mirror", 14)
+    # the Schur complement with the noise term is what keeps the conditional covariance physical
+    c06.gain(ctx, "C07.gain")
